@@ -744,7 +744,13 @@ const PRELUDE: &str = "n = %num\no = #'%num.opt { $ }\nnn = #'%num { $ }\n";
 /// One program evaluating all expressions; returns one answer per expression, or a whole-program
 /// outcome (`error:<Class>` / `panic:…` / `front:…`).
 fn run_batch(exprs: &[String], b: &Builtins) -> Result<Vec<String>, String> {
+    run_batch_with("", exprs, b)
+}
+
+/// like `run_batch`, with extra bindings after the prelude
+fn run_batch_with(extra: &str, exprs: &[String], b: &Builtins) -> Result<Vec<String>, String> {
     let mut src = String::from(PRELUDE);
+    src.push_str(extra);
     src.push_str("[\n");
     for e in exprs {
         src.push_str("  ");
@@ -1116,7 +1122,7 @@ fn main() {
     }
 
     // --- stream 1: single binary operations
-    let n_bin = opts.tier.pick(6000u64, 120000u64);
+    let n_bin = opts.tier.pick(6000u64, 400000u64);
     for i in 0..n_bin {
         let mut r = Rng::for_case(opts.seed ^ 0xC20_0001, i);
         let surd_w = if i % 3 == 0 { 35 } else { 0 };
@@ -1128,7 +1134,7 @@ fn main() {
     }
 
     // --- stream 2: unary operations, clamp, sqrt
-    let n_un = opts.tier.pick(2400u64, 40000u64);
+    let n_un = opts.tier.pick(2400u64, 120000u64);
     for i in 0..n_un {
         let mut r = Rng::for_case(opts.seed ^ 0xC20_0002, i);
         let opaque = r.chance(1, 3);
@@ -1167,7 +1173,7 @@ fn main() {
     }
 
     // --- stream 3: malformed operands (differential model <-> implementation only)
-    let n_mal = opts.tier.pick(400u64, 6000u64);
+    let n_mal = opts.tier.pick(400u64, 15000u64);
     for i in 0..n_mal {
         let mut r = Rng::for_case(opts.seed ^ 0xC20_0003, i);
         let m = gen_malformed(&mut r);
@@ -1184,7 +1190,7 @@ fn main() {
     // --- stream 3b: call-site result specialisation. For int/rational operands the dispatch
     //     tables of add/sub/mul/neg/abs/to_int/floor/ceil/numer/denom give a result type without
     //     nil: feeding the result to a function that only accepts non-nil numbers must compile.
-    let n_typed = opts.tier.pick(400u64, 5000u64);
+    let n_typed = opts.tier.pick(400u64, 10000u64);
     for i in 0..n_typed {
         let mut r = Rng::for_case(opts.seed ^ 0xC20_0006, i);
         let x = gen_num(&mut r, 0, 0);
@@ -1205,7 +1211,7 @@ fn main() {
         operands: Vec<Nm>,
     }
     let mut laws: Vec<Law> = vec![];
-    let n_law = opts.tier.pick(700u64, 12000u64);
+    let n_law = opts.tier.pick(700u64, 40000u64);
     for i in 0..n_law {
         let mut r = Rng::for_case(opts.seed ^ 0xC20_0004, i);
         let opaque = r.chance(1, 3);
@@ -1533,8 +1539,66 @@ fn main() {
         }
     }
 
+    // --- call-site result specialisation with union-typed operands (`mk` returns 'int | Rational):
+    //     the specialised result type must be wide enough (a consumer that only takes 'int, or only a
+    //     Rational, or only non-nil numbers where nil is possible, must be rejected at compile time)
+    //     and narrow enough (a consumer of non-nil numbers must be accepted for add/sub/mul/neg).
+    {
+        let extra = "mk = #'int { | =0 => 7 | Rational[1, 2] }\nii = #'int { $ }\nrr = #Rational['int, 'int] { $ }\n";
+        let accept: [(&str, &str); 6] = [
+            ("[0 mk, 0 mk] %num.add nn", "(int 14)"),
+            ("[1 mk, 0 mk] %num.add nn", "(rat 15 2)"),
+            ("[1 mk, 1 mk] %num.mul nn", "(rat 1 4)"),
+            ("[0 mk, 1 mk] %num.sub nn", "(rat 13 2)"),
+            ("0 mk %num.neg nn", "(int -7)"),
+            ("1 mk %num.abs nn", "(rat 1 2)"),
+        ];
+        let srcs: Vec<String> = accept.iter().map(|(e, _)| e.to_string()).collect();
+        ev.hit("programs-compiled");
+        match run_batch_with(extra, &srcs, &b) {
+            Ok(v) => {
+                for (i, (e, want)) in accept.iter().enumerate() {
+                    ev.case(&("spec-accept", e), true);
+                    ev.hit("stream:specialisation");
+                    if v[i] != *want {
+                        ev.violation("kind=specialisation-wrong-value", &format!("`{e}` = {}, expected {want}", v[i]),
+                            json!({"quiver": e, "prelude": extra, "impl": v[i], "expected": want}), true);
+                    }
+                }
+            }
+            Err(w) => {
+                ev.violation("kind=specialisation-too-wide",
+                    &format!("results of add/sub/mul/neg/abs on 'int | Rational operands are no longer accepted where a non-nil number is required: {w}"),
+                    json!({"broken": "call-site result specialisation (dispatch tables) on union-typed operands", "programs": srcs, "outcome": w}), false);
+            }
+        }
+        // must be rejected by the type checker; the last one is the concrete witness: 7 / (7 − 7) is
+        // nil and would flow into a function that only accepts non-nil numbers
+        let reject = [
+            "[0 mk, 0 mk] %num.add ii",
+            "0 mk %num.neg ii",
+            "[0 mk, 0 mk] %num.add rr",
+            "[0 mk, 0 mk] %num.div nn",
+            "[0 mk, [0 mk, 0 mk] %num.sub] %num.div nn",
+        ];
+        for e in reject {
+            ev.hit("programs-compiled");
+            ev.case(&("spec-reject", e), true);
+            ev.hit("stream:specialisation");
+            match run_batch_with(extra, &[e.to_string()], &b) {
+                Err(w) if w.starts_with("front:Compile") => ev.hit("specialisation:rejected-as-required"),
+                other => {
+                    let concrete = e.contains("%num.sub] %num.div") && matches!(&other, Ok(v) if v[0] == "nil");
+                    ev.violation("kind=specialisation-too-narrow",
+                        &format!("`{e}` is accepted by the type checker (outcome {other:?}): the specialised result type lost a variant (nil / the other kind) of the union-typed call"),
+                        json!({"quiver": e, "prelude": extra, "outcome": format!("{other:?}")}), concrete);
+                }
+            }
+        }
+    }
+
     // --- literal desugaring: source literals through the real parser/compiler vs the model vs host
-    let n_lit = opts.tier.pick(600u64, 8000u64);
+    let n_lit = opts.tier.pick(600u64, 20000u64);
     let mut lit_src = vec![];
     let mut lit_req = vec![];
     let mut lit_host = vec![];
